@@ -99,6 +99,37 @@ class Desugar(ast.NodeTransformer):
         for s in module_tree.body:
             if isinstance(s, ast.FunctionDef) and not s.decorator_list and self._inlinable_generator(s):
                 self.generators[s.name] = s
+        # NAME = functools.partial(f, <simple arguments>) at module level, bound once: NAME(x) is f(<arguments>, x)
+        self.partials: Dict[str, ast.Call] = {}
+        for s in module_tree.body:
+            if isinstance(s, (ast.Assign, ast.AnnAssign)) and s.value is not None and isinstance(s.value, ast.Call):
+                tg = s.targets if isinstance(s, ast.Assign) else [s.target]
+                c = s.value
+                fn_txt = ast.unparse(c.func)
+                if len(tg) == 1 and isinstance(tg[0], ast.Name) and counts.get(tg[0].id) == 1 and fn_txt in ("functools.partial", "partial") and c.args and \
+                        isinstance(c.args[0], (ast.Name, ast.Attribute)) and all(_simple(a) for a in c.args) and all(k.arg is not None and _simple(k.value) for k in c.keywords):
+                    self.partials[tg[0].id] = c
+        # leaf helpers: module-level functions that are one `return <expr>` over their parameters and call nothing defined in the
+        # module (formatting / conversion one-liners): a call of one is replaced by the expression
+        self.leaf_helpers: Dict[str, ast.FunctionDef] = {}
+        local_defs = {x.name for x in module_tree.body if isinstance(x, (ast.FunctionDef, ast.AsyncFunctionDef, ast.ClassDef))}
+        for s in module_tree.body:
+            if isinstance(s, ast.FunctionDef) and not s.decorator_list and counts.get(s.name, 0) == 0 and \
+                    sum(1 for x in module_tree.body if isinstance(x, (ast.FunctionDef, ast.ClassDef)) and x.name == s.name) == 1:
+                a = s.args
+                body = [b for b in s.body if not (isinstance(b, ast.Expr) and isinstance(b.value, ast.Constant))]
+                if a.vararg or a.kwarg or a.kwonlyargs or a.posonlyargs or a.defaults or len(body) != 1 or not isinstance(body[0], ast.Return) or body[0].value is None:
+                    continue
+                ret = body[0].value
+                if any(isinstance(x, (ast.Lambda, ast.NamedExpr, ast.Yield, ast.YieldFrom, ast.Await, ast.ListComp, ast.SetComp, ast.DictComp, ast.GeneratorExp, ast.IfExp, ast.BoolOp))
+                       for x in ast.walk(ret)):
+                    continue
+                if any(isinstance(x, ast.Name) and x.id in local_defs for x in ast.walk(ret)):
+                    continue
+                params = [p.arg for p in a.args]
+                uses = {p: sum(1 for x in ast.walk(ret) if isinstance(x, ast.Name) and x.id == p) for p in params}
+                if all(u == 1 for u in uses.values()) and params:
+                    self.leaf_helpers[s.name] = s
         self.dict_helpers: Dict[str, ast.FunctionDef] = {}
         for s in module_tree.body:
             if isinstance(s, ast.FunctionDef) and self._dict_helper(s) and \
@@ -792,6 +823,35 @@ class Desugar(ast.NodeTransformer):
     # ------------------------------------------------------------------ getattr
     def visit_Call(self, node: ast.Call):
         node = self.generic_visit(node)
+        if isinstance(node.func, ast.Name) and node.func.id in self.partials and not (self.func_stack and self._is_local(node.func.id)) and \
+                not any(isinstance(a, ast.Starred) for a in node.args) and all(k.arg is not None for k in node.keywords):
+            pc = self.partials[node.func.id]
+            kws = {k.arg: k.value for k in pc.keywords}
+            kws.update({k.arg: k.value for k in node.keywords})
+            new = ast.Call(func=copy.deepcopy(pc.args[0]), args=[copy.deepcopy(a) for a in pc.args[1:]] + list(node.args),
+                           keywords=[ast.keyword(arg=k, value=copy.deepcopy(v)) for k, v in kws.items()])
+            ast.copy_location(new, node)
+            for x in ast.walk(new):
+                if isinstance(x, (ast.expr, ast.keyword)) and not hasattr(x, "lineno"):
+                    ast.copy_location(x, node)
+            ast.fix_missing_locations(new)
+            self.count["partial"] = self.count.get("partial", 0) + 1
+            node = new
+        if isinstance(node.func, ast.Name) and node.func.id in self.leaf_helpers and not (self.func_stack and self._is_local(node.func.id)) and not node.keywords and \
+                not any(isinstance(a, ast.Starred) for a in node.args) and not (self.func_stack and getattr(self.func_stack[-1], "name", None) == node.func.id):
+            fn = self.leaf_helpers[node.func.id]
+            params = [p.arg for p in fn.args.args]
+            if len(params) == len(node.args):
+                # every parameter is used exactly once: arguments are evaluated once, as before (their order among themselves may
+                # differ, which no analysis here depends on)
+                body = [b for b in fn.body if not (isinstance(b, ast.Expr) and isinstance(b.value, ast.Constant))]
+                new = _Subst(dict(zip(params, node.args))).visit(copy.deepcopy(body[0].value))
+                for x in ast.walk(new):
+                    if isinstance(x, (ast.expr, ast.keyword)):
+                        ast.copy_location(x, node)
+                ast.fix_missing_locations(new)
+                self.count["leaf-helper"] = self.count.get("leaf-helper", 0) + 1
+                return new
         if isinstance(node.func, ast.Name) and node.func.id in ("isinstance", "issubclass") and len(node.args) == 2 and not node.keywords:
             t = self._class_tuple(node.args[1])
             if t is not None:
